@@ -82,12 +82,23 @@ def build_fn(spec, dropped, located):
         sig = rsx.replace_exact(sig, old, new, count, f'{spec.name} signature {rule}')
         dropped.append(f'{spec.name}: signature rewrite {rule}: `{old}` -> `{new}`')
     for old, new, count, rule in spec.rewrites:
+        if count is None:
+            # optional rule: applies where the construct occurs (capability patch for an idiom that may or may not be present)
+            n = rsx.count_exact(body, old)
+            if n == 0:
+                continue
+            count = n
         body = rsx.replace_exact(body, old, new, count, f'{spec.name} {rule}')
         dropped.append(f'{spec.name}: rewrite {rule} x{count}: `{rsx.norm(old)[:80]}` -> `{new[:80]}`')
     for where, anchor, text in spec.inserts:
         first = text.strip().split('\n', 1)[0]
         if not _GHOST_OK.match(first):
             raise rsx.LostAnchor(f'{spec.name}: inserted text is not ghost-only: {first[:60]!r}')
+        if where.endswith('?'):
+            # optional insert: only where the anchor occurs
+            if rsx.count_exact(body, anchor) == 0:
+                continue
+            where = where[:-1]
         if where == 'after':
             body = rsx.insert_after(body, anchor, text, f'{spec.name}: {anchor[:50]}')
         elif where == 'before':
